@@ -408,8 +408,29 @@ def shape_case(col, rng):
     elif shared_mutable(got.value, lit) is not None:
         col.violation('C08/fill-returns-the-literal-itself', 'Fill(%s): the result contains a container of the spec itself: %r'
                       % (short(lit), shared_mutable(got.value, lit)), None)
+    # a Pipe is not a mode wrapper: its steps run in the mode in force, so a container that is a direct step of a Pipe inside
+    # Fill is filled like the bare container
+    if isinstance(lit, (tuple, list, dict)):
+        for name, spec in (('Fill(Pipe(lit))', Fill(Pipe(lit))), ('Fill(Pipe(T, lit))', Fill(Pipe(T, lit)))):
+            got2 = call(G, target, spec)
+            col.count('shape_checks')
+            if not got2.ok or not deep_equal(got2.value, want):
+                col.violation('C08/fill-shape-through-pipe:' + type(lit).__name__, '%s with lit = %s: expected %s, got %r'
+                              % (name, short(lit), short(want), got2), {'literal': short(lit)})
+                break
     if col.want_sample('shape'):
         col.sample({'literal': short(lit), 'fill_result': short(want), 'arg_result': short(builder(target, False))}, 'shape')
+    # ONE literal object in argument position twice within one call, at two different targets (a later chain step): each
+    # use is rebuilt from ITS target
+    inner = {'k': ['inner-kv'], 'n': [{'deep': 2}, 3], 'fn': target['fn'], 'box': None, 'h': 'inner-hv'}
+    outer = dict(target, inner=inner)
+    twice = (S(first=lit), T['inner'], S(second=lit), Fill([S.first, S.second]))
+    got3 = call(G, outer, twice)
+    col.count('shape_checks')
+    want3 = [builder(outer, False), builder(inner, False)]
+    if not got3.ok or not deep_equal(got3.value, want3):
+        col.violation('C08/arg-shape:same-literal-at-two-targets-in-one-call', '(S(first=lit), T[\'inner\'], S(second=lit), ..) with lit = %s: '
+                      'expected %s, got %r' % (short(lit), short(want3), got3), {'literal': short(lit)})
     # argument positions
     want = builder(target, False)
     for name, spec, extract in arg_positions(lit):
